@@ -97,6 +97,26 @@ def run(ctx: Ctx):
                                      f"{f.qualname} reads {SEQ} outside `with self.{lock_used}`: "
                                      f"the value handed to the caller may be another thread's")
                             break
+        storing = {f.name for f in funcs}
+        for h in g.all_funcs:
+            if h in funcs or h.name == "__init__" or h.is_property:
+                continue
+            calls_storing = [n for n in A.walk_no_nested(h.node) if isinstance(n, ast.Call)
+                             and A.call_name(n) in {f"self.{x}" for x in storing}]
+            if not calls_storing:
+                continue
+            cons = f"{h.qualname}:counter-critical-section"
+            ctx.inst(cons)
+            for n in A.walk_no_nested(h.node):
+                if isinstance(n, ast.Attribute) and n.attr == SEQ and isinstance(n.ctx, ast.Load) \
+                        and A.dotted(n.value) == "self":
+                    held = held_locks(h, n)
+                    if not any(f"self.{lk}" in held for lk in locks):
+                        ctx.fail(cons, f"{h.module.relpath}:{n.lineno}",
+                                 f"{h.qualname} advances the counter through {sorted(storing)} (which "
+                                 f"releases the lock) and then reads {SEQ} again outside the lock: the "
+                                 f"value handed out may be the one another thread just produced")
+                        break
         for s in foreign:
             ctx.inst(f"{s.func.qualname}:foreign-store")
             ctx.fail(f"{s.func.qualname}:foreign-store", s.where,
